@@ -3,7 +3,7 @@ import ast
 from .. import alg
 from ..alg import Rat, C
 from ..model import AnalysisError, stmt_text, Ext
-from ..symval import Evaluator, Tup, Obj, NoneV, NONE, CallV, Bool, Ref, IteV, Str, DictV, argkey, _const_int
+from ..symval import Evaluator, Tup, Obj, NoneV, NONE, CallV, Bool, Ref, IteV, Str, DictV, argkey, _const_int, _single_atom
 from ..symcheck import check_equal, compare_values, show
 from ..rules import where
 from ..mutate import replace_in_function, substitute
@@ -84,6 +84,18 @@ def handler_rules(repo, rep):
         ev = mk_eval(repo)
         val = ev.call_function(f, {})
         base = 'R-WIRE::api/app.py::%s::' % hname
+        # several return paths: every path other than the success path must be impossible for a well-formed query
+        paths = return_paths(val)
+        if len(paths) > 1:
+            ok_paths = [(g, v) for g, v in paths if isinstance(v, Tup) and len(v.items) == 2 and _const_int(v.items[1]) == 200]
+            bad_paths = [(g, v) for g, v in paths if (g, v) not in ok_paths]
+            for g, v in bad_paths:
+                st = _const_int(v.items[1]) if isinstance(v, Tup) and len(v.items) == 2 else None
+                rep.violated('R-WIRE', base + 'early-return::%s' % st, w, 'the handler can answer a well-formed query with status %s: it returns early when %s '
+                             '(0 is a valid latitude, longitude, azimuth and distance)' % (st, ' and '.join(alg.fmt(c, 3)[:120] for c in g)),
+                             expected='status 200 with the library result for every in-domain query', actual='status %s under %s' % (st, ' and '.join(alg.fmt(c, 2)[:80] for c in g)))
+            if len(ok_paths) == 1:
+                val = ok_paths[0][1]
         if not (isinstance(val, Tup) and len(val.items) == 2 and isinstance(val.items[0], DictV)):
             rep.undecided('R-WIRE', base + 'shape', w, 'handler does not return (jsonify({...}), status)')
             continue
@@ -152,6 +164,30 @@ def handler_rules(repo, rep):
             check_equal(rep, 'R-WIRE', base + 'json::' + name, w, body.d[name], want,
                         'JSON %s = result slot %d of %s%s' % (name, slot, lib, ' through the output-angle converter (identity for dd, dec2hp for dms)' if is_angle else ' unchanged'))
     rep.floor('R-WIRE', 30, 'query parameters, arguments and JSON keys of two handlers')
+
+
+def return_paths(v, guards=()):
+    """[(guard conditions, value)] for a value built from guarded returns"""
+    if isinstance(v, IteV):
+        return return_paths(v.a, guards + (v.cond,)) + return_paths(v.b, guards + (alg.opaque('not', (v.cond,)) if isinstance(v.cond, Rat) else v.cond,))
+    if isinstance(v, Tup) and v.items and isinstance(v.items[-1], Rat):
+        from .c10 import ite_leaves
+        a = _single_atom(v.items[-1])
+        if a is not None and a.kind == 'fn' and a.name == 'ite':
+            # the status slot is a guarded number: split the tuple on that condition
+            c = a.args[0]
+            ta = Tup([pick(x, c, True) for x in v.items])
+            tb = Tup([pick(x, c, False) for x in v.items])
+            return return_paths(ta, guards + (c,)) + return_paths(tb, guards + (alg.opaque('not', (c,)),))
+    return [(guards, v)]
+
+
+def pick(x, cond, branch):
+    if isinstance(x, IteV) and isinstance(x.cond, Rat) and x.cond.equals(cond):
+        return x.a if branch else x.b
+    if isinstance(x, Rat):
+        return alg.assume(x, cond, branch)
+    return x
 
 
 def table_rules(repo, rep):
